@@ -322,3 +322,7 @@ def run_case(line, seed):
             m._verif_io["io"].close()
         except Exception:
             pass
+
+
+import verbosity  # noqa: E402
+run_case = verbosity.wrap(run_case)   # one case in eight runs at Verbosity.CHANNEL
